@@ -16,7 +16,7 @@ from .smt import (T, INT, BOOL, STR, IntV, BoolV, StrV, TRUE, FALSE, And, Or, No
                   At, Contains, PrefixOf, SuffixOf, Max, Min)
 from .vals import (Undecided, V, VInt, VBool, VStr, VNone, NONE, VVal, VSeq, VTuple,
                    VRef, VFunc, VPy, VBound, VExc, Raised, HList, HPyList, HDict,
-                   HSet, HInst, parse_type, sort_of, wrap)
+                   HSet, HInst, HObjList, parse_type, sort_of, wrap)
 
 WS_CHARS = ' \t\n\r\x0b\x0c\x1c\x1d\x1e\x1f\x85\xa0'
 
@@ -96,7 +96,12 @@ def _find_common(eng, args, st, rightmost):
     f = eng.ctx.fresh(base, INT)
     eng.trusted_used.add('builtin:str.%s (contract: occurrence + %s-most, or native str.indexof)' % (base, 'right' if rightmost else 'left'))
     lw = Len(w.t)
-    occ = And(Le(a, f), Le(Add(f, lw), e), Eq(Substr(s.t, f, lw), w.t))
+    single = w.t.lit is not None and len(w.t.lit[1]) == 1
+
+    def sub(pos):
+        # one-character needles are stated with str.at so that triggers line up with s[k]
+        return At(s.t, pos) if single else Substr(s.t, pos, lw)
+    occ = And(Le(a, f), Le(Add(f, lw), e), Eq(sub(f), w.t))
     # empty needle: substr of length 0 is "" -- fine.  a' > e' -> -1.
     st.assume(Ge(f, IntV(-1)))
     st.assume(Or(Eq(f, IntV(-1)), occ))
@@ -105,8 +110,8 @@ def _find_common(eng, args, st, rightmost):
         better = Or(Eq(f, IntV(-1)), Gt(p, f))
     else:
         better = Or(Eq(f, IntV(-1)), Lt(p, f))
-    body = Implies(And(Le(a, p), Le(Add(p, lw), e), better), Ne(Substr(s.t, p, lw), w.t))
-    st.alts.append(('contract', smt.ForAll([p], body, patterns=[[Substr(s.t, p, lw)]])))
+    body = Implies(And(Le(a, p), Le(Add(p, lw), e), better), Ne(sub(p), w.t))
+    st.alts.append(('contract', smt.ForAll([p], body, patterns=[[sub(p)]])))
     if not rightmost:
         # native alternative: indexof on the end-clipped prefix
         nat = Ite(Le(a, e), smt.IndexOf(Substr(s.t, IntV(0), e), w.t, a), IntV(-1))
@@ -356,6 +361,11 @@ def _list_obj(eng, v, st):
 def list_append(eng, args, kwargs, st, node):
     xs, x = args
     o = st.heap[xs.loc]
+    if isinstance(o, HObjList):
+        if not (isinstance(x, VExc) and issubclass(x.cls, o.cls)):
+            raise Undecided('append of %r to a list of %s objects' % (x, o.cls.__name__), node)
+        st.heap[xs.loc] = HObjList(Add(o.n, IntV(1)), o.cls)
+        return [(NONE, st)]
     if isinstance(o, HPyList):
         st.heap[xs.loc] = HPyList(o.items + [x])
         return [(NONE, st)]
@@ -588,6 +598,9 @@ def set_discard(eng, args, kwargs, st, node):
 @func(len)
 def m_len(eng, args, kwargs, st, node):
     v = args[0]
+    from .symexec import VOptSym
+    if isinstance(v, VOptSym) and eng.pure:
+        v = v.val
     if isinstance(v, VStr):
         return [(VInt(Len(v.t)), st)]
     if isinstance(v, VTuple):
@@ -600,6 +613,8 @@ def m_len(eng, args, kwargs, st, node):
             return [(VInt(IntV(len(o.entries))), st)]
         if isinstance(o, HList):
             return [(VInt(Len(o.seq)), st)]
+        if isinstance(o, HObjList):
+            return [(VInt(o.n), st)]
         if isinstance(o, HSet):
             eng.trusted_used.add('builtin:len(set) (uninterpreted card; 0 iff empty)')
             c = eng.model_app('py_card', [o.arr], INT)
@@ -659,15 +674,15 @@ def m_print(eng, args, kwargs, st, node):
 def m_repr(eng, args, kwargs, st, node):
     v = args[0]
     if isinstance(v, VVal):
-        eng.trusted_used.add('builtin:repr (oracle: uninterpreted py_repr / may raise per py_repr_raises)')
-        raises = eng.model_app('py_repr_raises', [v.t], BOOL)
+        from . import specs_support
+        eng.trusted_used.add('builtin:repr (oracle: S.repr_of(v), raises some Exception iff S.repr_raises(v))')
+        raises = specs_support.call_spec_by_name(eng, 'repr_raises', [v], st, node).t
         out = []
         for flag, s in eng.fork_on(st, raises):
             if flag:
-                for cls in eng.subclasses_of(Exception)[:0] + [RuntimeError]:
-                    out.append((Raised(VExc(cls, {}, tag='repr')), s))
+                out.append((Raised(VExc(RuntimeError, {}, tag='repr')), s))
             else:
-                out.append((VStr(eng.model_app('py_repr', [v.t], STR)), s))
+                out.append((specs_support.call_spec_by_name(eng, 'repr_of', [v], s, node), s))
         return out
     if isinstance(v, VStr):
         eng.trusted_used.add('builtin:repr(str) (uninterpreted py_repr_str)')
@@ -675,6 +690,17 @@ def m_repr(eng, args, kwargs, st, node):
     if isinstance(v, VInt):
         return [(VStr(smt.StrFromInt(v.t)), st)]
     return [(VStr(eng.ctx.fresh('repr', STR)), st)]
+
+
+@func(type)
+def m_type(eng, args, kwargs, st, node):
+    v = args[0]
+    if isinstance(v, VExc):
+        return [(VPy(v.cls), st)]
+    if isinstance(v, VVal):
+        eng.ctx.sort('Val')
+        return [(VVal(eng.model_app('py_type', [v.t], 'Val')), st)]
+    raise Undecided('type(%r)' % (v,), node)
 
 
 @func(str)
